@@ -323,6 +323,23 @@ def run(P, R, tier):
     fields.check_compare(P, R, "GMMStats", "__eq__", flds, rule="FIELDS.eq")
     from ..engines import traps as _traps
     _traps.check(P, R, ['gmm'], scope='gmm:(GMMMachine|GMMStats)\\.(save|load|from_hdf5|_\\w+)|gmm:_\\w*hdf5\\w*')
+    # values restored from HDF5 are NumPy scalars: a test `isinstance(x.field, int)` is False for them
+    n_ti = 0
+    for mod_ in ("gmm", "kmeans", "ivector", "factor_analysis", "wccn", "whitening"):
+        for f_ in P.all_funcs([mod_]):
+            for c_ in walk_no_nested(f_.node):
+                if isinstance(c_, ast.Call) and isinstance(c_.func, ast.Name) and c_.func.id == "isinstance" and len(c_.args) == 2 and isinstance(c_.args[0], ast.Attribute) and isinstance(c_.args[0].value, ast.Name) and c_.args[0].value.id == f_.self_name:
+                    ty = c_.args[1]
+                    names = {src(x) for x in (ty.elts if isinstance(ty, ast.Tuple) else [ty])}
+                    fld_ = c_.args[0].attr
+                    readers_ = [m_ for k_ in P.mro(f_.cls) for nm_, m_ in k_.methods.items() if nm_ in ("from_hdf5", "load")] if f_.cls is not None else []
+                    restored_ = any(any((isinstance(x, ast.Constant) and x.value == fld_) or (isinstance(x, ast.keyword) and x.arg == fld_) or (isinstance(x, ast.Attribute) and x.attr == fld_) for x in ast.walk(m_.node)) or any(isinstance(x, ast.Attribute) and x.attr == "__dict__" for x in ast.walk(m_.node)) for m_ in readers_)
+                    if not restored_:
+                        continue
+                    if names & {"int", "float", "bool"} and not any(("integer" in x or "Integral" in x or "Real" in x or "number" in x.lower() or "floating" in x or "generic" in x) for x in names):
+                        n_ti += 1
+                        R.violation("SCHEMA.scalar-type", f_.key, src(c_)[:60], f"`{src(c_)}` decides on the Python type of a stored setting; after save / load the setting comes back as a NumPy scalar (numpy.int64 / numpy.float64), for which this test is False: the reloaded object behaves differently from the saved one", c_.lineno)
+    R.ok("SCHEMA.scalar-type", "package", f"no behaviour depends on a stored setting being a Python int / float rather than a NumPy scalar ({n_ti} sites)", "")
 
 
 EXPLANATION += ' Also: (SCHEMA.S9) the per-component groups of the legacy format are addressed by index (the weights are index-ordered), never visited in name order.'
